@@ -121,6 +121,23 @@ static std::string op_threatscan(std::istringstream& is)
     return std::to_string(found);
 }
 
+// ztable : the Zobrist tables as zobrist::init() ITSELF fills them (the harness normally overwrites them with fixed values):
+// piece[1..12][0..63], castling[0..15], side, ep[0..7]; the fixed values are restored afterwards
+static std::string op_ztable(std::istringstream&)
+{
+    // as at process start: static storage is zero before zobrist::init() runs
+    memset(PIECE_HASH, 0, sizeof PIECE_HASH); memset(CASTLING_HASH, 0, sizeof CASTLING_HASH); SIDE_HASH = 0; memset(ENPASSANT_HASH, 0, sizeof ENPASSANT_HASH);
+    zobrist::init();
+    std::string out;
+    for (int p = 1; p <= 12; ++p) for (int s = 0; s < 64; ++s) out += hex(PIECE_HASH[p][s]) + " ";
+    out += "|";
+    for (int i = 0; i < 16; ++i) out += " " + hex(CASTLING_HASH[i]);
+    out += " | " + hex(SIDE_HASH) + " |";
+    for (int f = 0; f < 8; ++f) out += " " + hex(ENPASSANT_HASH[f]);
+    deterministic_zobrist(0);
+    return out;
+}
+
 static std::string dispatch_eval(const std::string& op, std::istringstream& is)
 {
     if (op == "eval") return op_eval(is);
@@ -128,5 +145,6 @@ static std::string dispatch_eval(const std::string& op, std::istringstream& is)
     if (op == "hm") return op_hm(is);
     if (op == "pawnkey") return op_pawnkey(is);
     if (op == "threatscan") return op_threatscan(is);
+    if (op == "ztable") return op_ztable(is);
     return "UNKNOWN-OP " + op;
 }
